@@ -95,8 +95,16 @@ def parse_races(text):
 BLANK = {"ev": "", "run": 0, "len": 0, "p": 0, "op": "", "g": "", "b": [], "t": 0,
          "q": {"m": "", "c": "", "s": 0, "p": 0, "cp": 0, "canon": False, "o": 0, "lo": 0, "hi": 0, "fop": "", "ff": "", "la": False,
                "max": 0, "off": 0},
-         "so": 0, "res": [], "names": [], "ok": False, "err": False, "c": [], "gs": [], "f1": "", "f2": "", "pk1": "", "pk2": "",
+         "so": 0, "res": [], "names": [], "ok": False, "err": False, "c": [], "gs": [], "f1": "", "f2": "", "pk1": "", "pk2": "", "s1": "", "s2": "",
          "shared": False, "info": ""}
+
+
+def touches(src):
+    if "lo.FilterOptions" in src:
+        return "lo.FilterOptions"
+    if "filterOptions." in src:
+        return "filterOptions."
+    return ""
 
 
 def race_events(races, run, path):
@@ -105,7 +113,8 @@ def race_events(races, run, path):
     for r in races:
         e = json.loads(json.dumps(BLANK))
         e.update({"ev": "Race", "run": run, "f1": r["f1"], "f2": r["f2"], "pk1": r["pk1"], "pk2": r["pk2"],
-                  # both racing statements are accesses to the caller's options value
+                  # what each racing statement touches: the caller's options value, or the filter options it points to
+                  "s1": touches(r["src1"]), "s2": touches(r["src2"]),
                   "shared": "lo.FilterOptions" in r["src1"] and "lo.FilterOptions" in r["src2"],
                   "info": "%s: %s %s | %s %s" % (r["kind"], r["loc1"].split("/")[-1], r["src1"][:60], r["loc2"].split("/")[-1], r["src2"][:60])})
         evs.append(e)
@@ -204,7 +213,7 @@ def short_hist(lines, start):
         elif v["ev"] == "ret":
             res.append({"ev": "ret", "p": v["p"]})
         else:
-            res.append({k: v[k] for k in ("ev", "p", "f1", "f2", "pk1", "pk2", "shared", "info")})
+            res.append({k: v[k] for k in ("ev", "p", "f1", "f2", "pk1", "pk2", "s1", "s2", "shared", "info")})
     return res
 
 
@@ -292,7 +301,7 @@ def check(prop):
                            "events": len(h) - 1}, {"history": h, "trace_reset_line": s})
         for ln, (cls, ev) in sorted(bad.items()):
             nrej += 1
-            w = {k: ev[k] for k in ("ev", "run", "p", "f1", "f2", "pk1", "pk2", "shared", "info")}
+            w = {k: ev[k] for k in ("ev", "run", "p", "f1", "f2", "pk1", "pk2", "s1", "s2", "shared", "info")}
             if ev["ev"] == "OptionsChanged":
                 w["q"] = {k: x for k, x in ev["q"].items() if x not in (0, "", False)}
             v.reject(cls, w, {"event": ev, "part": name, "trace_line": ln})
